@@ -95,6 +95,7 @@ func (o UnmarshalOptions) unmarshal(b []byte, m protoreflect.Message) (out proto
 		Reset(m.Interface())
 	}
 	allowPartial := o.AllowPartial
+	merged := o.Merge // m may hold content that is not part of b
 	o.Merge = true
 	o.AllowPartial = true
 	methods := protoMethods(m)
@@ -129,7 +130,9 @@ func (o UnmarshalOptions) unmarshal(b []byte, m protoreflect.Message) (out proto
 	if err != nil {
 		return out, err
 	}
-	if allowPartial || (out.Flags&protoiface.UnmarshalInitialized != 0) {
+	// UnmarshalInitialized describes the parsed input only: it vouches for
+	// the whole message only if the message was reset before.
+	if allowPartial || (!merged && out.Flags&protoiface.UnmarshalInitialized != 0) {
 		return out, nil
 	}
 	return out, checkInitialized(m)
